@@ -23,6 +23,7 @@ RULE = (
     "tree has >= 1 transfer or materialization and >= 1 hook call; distinct = program skeleton x hook-call pattern."
     "  For half of the cases a further selection / calculation is then requested ON THE PROCESSED TREE with a random preferred engine, processed and executed again: the rows must be the model's rows of the whole sequence. "
     "  In 30 % of the cases the first process() call is one in which the k-th hook call fails (injected fault): only materializations completed before the failure may have gained payloads, and the passes that follow must still yield the model's rows. "
+    "  15 % of the cases chain the tree with a second build of the same program (equal but distinct transfer / materialization objects with the same names over the same leaves). "
 )
 ASSUMPTIONS = [
     "reference model vmon/model.py; SQLite + SQLAlchemy execute the SQL parts; grammar shim as in C02",
